@@ -21,7 +21,7 @@ Fixpoint reloadable (n : node) : bool :=
   | NPrior _ fam _ _ _ _ => negb (is_log_gaussian fam)
   | NFloat _ | NInt _ | NBool _ | NStr _ | NNone => true
   | NTuple _ ms => all ms
-  | NBinop _ _ ln rn l r => String.eqb ln "left_" && String.eqb rn "right_" && reloadable l && reloadable r
+  | NBinop _ _ ln rn l r => String.eqb ln "left_" && String.eqb rn "right_" && negb (same_prior l r) && reloadable l && reloadable r
   | NUnop _ _ _ a => negb (is_prior a) && reloadable a
   | NModel _ _ _ _ attrs => has_prior n && all attrs
   | NColl _ k attrs => Z.eqb k 0 && all attrs
@@ -54,8 +54,8 @@ Proof.
   - cbn [reloadable] in H. rewrite reloadable_go in H.
     cbn [reload]. rewrite reload_go, (all_some_id ms IH H). reflexivity.
   - cbn [reloadable] in H. repeat (apply andb_true_iff in H; destruct H as [H ?]).
-    apply String.eqb_eq in H. apply String.eqb_eq in H2. subst ln rn.
-    cbn [reload]. rewrite (IHl H1), (IHr H0). reflexivity.
+    apply String.eqb_eq in H. apply String.eqb_eq in H3. apply negb_true_iff in H2. subst ln rn.
+    cbn [reload]. rewrite (IHl H1), (IHr H0), H2. reflexivity.
   - cbn [reloadable] in H. apply andb_true_iff in H. destruct H as [H1 H2].
     cbn [reload]. apply negb_true_iff in H1. rewrite H1, (IHa H2). reflexivity.
   - change (reloadable (NModel mid lbl cls cargs attrs))
